@@ -6,7 +6,7 @@
 //   wake: ElectricField (physical-units constructor) + WakePotentialMap::update()
 //
 // step <id> <n> <it> <nmax> <order: 4 tokens of W R D F> <ztype> <zparams...>
-//      Ib E0 sE dt f_rev f_RF bl pqsize angle e1 deriv  data (n*n floats)
+//      Ib E0 sE dt f_rev f_RF bl pqsize angle e1 deriv shiftx shifty  data (n*n floats)
 //   ztype: const zr zi | rw s xi radius | tab (nmax pairs re im)
 // prints everything the check compares (hex floats).
 static std::shared_ptr<Impedance> read_impedance(size_t nmax, double fmax, double f_rev)
@@ -58,6 +58,7 @@ static void do_step()
     meshaxis_t angle = nextf();
     double e1 = nextd();
     unsigned deriv = nextl();
+    const double shx = nextd(), shy = nextd();        // grid shifts in cells, as --PhaseSpaceShiftX/Y
     size_t after = tp;
     const double fmax = n * physcons::c / (pqsize * bl);         // main.cpp: ps_bins*c/(pqsize*bl)
     tp = zpos;
@@ -70,7 +71,10 @@ static void do_step()
     const double half = pqsize / 2;
     PhaseSpace::resetSize(n, 1);
     std::vector<integral_t> bunches{1.0f};
-    auto g1 = std::make_shared<PhaseSpace>(-half, half, bl, -half, half, dE, nullptr, Qb, Ib, bunches, 1.0);
+    // main.cpp:187-193: qcenter = -ShiftX*pqsize/(ps_bins-1), qmin/qmax = qcenter -/+ pqsize/2 (same for p)
+    const double qcenter = -shx * pqsize / (n - 1), pcenter = -shy * pqsize / (n - 1);
+    auto g1 = std::make_shared<PhaseSpace>(qcenter - half, qcenter + half, bl, pcenter - half, pcenter + half, dE,
+                                           nullptr, Qb, Ib, bunches, 1.0);
     for (size_t i = 0; i < (size_t)n * n; i++) g1->getData()[i] = nextf();
     auto g2 = std::make_shared<PhaseSpace>(*g1);
     auto g3 = std::make_shared<PhaseSpace>(*g1);
